@@ -49,7 +49,20 @@ package scen
 //       - ap-aborted-by-caller-release encodes "sends every peer returned by
 //         the lookup one ADD_PROVIDER ... with and without optimistic provide"
 //         and is judged only when the caller released its context (an
-//         operation may itself give up what it no longer waits for).
+//         operation may itself give up what it no longer waits for);
+//   * ap-local-provider (frt-local-provider on fullrt) encodes "Provide with
+//     announce records the local node as provider ... for every network, ...
+//     address set and address filter". The clause names the local node's own
+//     store; the lookup decides who ELSE is told, and the address set decides
+//     whether anything can be sent at all. It is therefore judged after EVERY
+//     Provide(announce) that returned - whatever it returned, whether its
+//     lookup found peers, failed or never started, whether a caller deadline
+//     ran out during it, and in particular when no advertised address passes
+//     the filter (nothing may be sent then, ap-sent-without-addrs, yet the
+//     node still provides the content and must answer for it): the provider
+//     store, asked through its public interface, lists the local peer for the
+//     key. The caller's context is always live when the call starts and the
+//     datastore never fails here, so nothing excuses a missing record.
 
 import (
 	"bytes"
@@ -95,9 +108,11 @@ func init() {
 	reg("provide-classic", 3, func(s *sim.Sim) { runC06Provide(s, false, false) },
 		"probe_addrs_changed_with_event", "probe_addrs_changed_silently", "probe_provide_after_addr_change",
 		"probe_provide_ok", "probe_all_addrs_filtered", "probe_filter_dropped_some", "probe_provide_deadline_ctx", "probe_provide_deadline_exceeded", "probe_provide_lookup_failed",
-		"probe_recipient_failed_others_served", "probe_recipient_hung_others_served", "probe_R_smaller_than_K")
+		"probe_recipient_failed_others_served", "probe_recipient_hung_others_served", "probe_R_smaller_than_K",
+		"probe_local_provider_judged", "probe_local_provider_judged_no_addrs", "probe_local_provider_judged_op_failed", "probe_local_provider_judged_no_lookup_result")
 	reg("provide-optimistic", 3, func(s *sim.Sim) { runC06Provide(s, true, false) },
 		"probe_addrs_changed_with_event", "probe_addrs_changed_silently", "probe_provide_after_addr_change",
+		"probe_local_provider_judged", "probe_local_provider_judged_no_addrs",
 		"probe_provide_ok", "probe_all_addrs_filtered", "probe_filter_dropped_some", "probe_estimator_ready", "probe_optimistic_fallback_classic",
 		"probe_optimistic_early_put", "probe_optimistic_extra_recipient", "probe_optimistic_lookup_stopped", "probe_term_stopped", "probe_optimistic_inflight_at_return",
 		"probe_recipient_failed_others_served", "probe_recipient_hung_others_served",
@@ -1439,6 +1454,13 @@ func (w *c06World) checkProvide(ob *c06OpObs, key mh.Multihash, want []ma.Multia
 		return
 	}
 
+	// "Provide with announce records the local node as provider": judged after
+	// every Provide that returned, before anything is known about its lookup
+	// (see the header, ap-local-provider).
+	if !w.checkLocalProvider("ap", ob, key, len(want), w.h.DHT.ProviderStore().GetProviders) {
+		return
+	}
+
 	// The recipient clauses apply when the lookup succeeded and the operation
 	// was not cancelled. Without a caller deadline nothing is ever cancelled and
 	// lookup success is read from the lookup events, not from the returned
@@ -1449,6 +1471,7 @@ func (w *c06World) checkProvide(ob *c06OpObs, key mh.Multihash, want []ma.Multia
 	}
 	R, v, ok := w.lookupResult(ob)
 	if !ok {
+		s.Count("probe_local_provider_judged_no_lookup_result")
 		if ob.op.Err == nil {
 			s.Violate("ap-no-lookup", "Provide returned nil without a completed closest-peers lookup")
 			return
@@ -1459,11 +1482,6 @@ func (w *c06World) checkProvide(ob *c06OpObs, key mh.Multihash, want []ma.Multia
 	s.Count("probe_provide_ok")
 	if ob.op.DoneAt-ob.startAt > time.Minute {
 		s.Count("probe_op_over_60s")
-	}
-
-	// the local node is recorded as provider
-	if !w.checkLocalProvider(key, w.h.DHT.ProviderStore().GetProviders) {
-		return
 	}
 
 	if len(want) > 0 {
@@ -1551,9 +1569,17 @@ func (w *c06World) checkProvideContent(ob *c06OpObs, key mh.Multihash, want []ma
 	return msgs, true
 }
 
-// checkLocalProvider: the provider store lists the local peer for key.
-func (w *c06World) checkLocalProvider(key mh.Multihash, get func(context.Context, []byte) ([]peer.AddrInfo, error)) bool {
+// checkLocalProvider, <prefix>-local-provider: after a Provide(announce) that
+// returned - whatever it returned - the provider store, asked through its
+// public interface, lists the local peer for key. advertised is the number of
+// host addresses that pass the address filter (0: nothing could be announced;
+// the local record is owed all the same). The question is put with a context of
+// its own: a caller that released or outlived its context still provides.
+func (w *c06World) checkLocalProvider(prefix string, ob *c06OpObs, key mh.Multihash, advertised int, get func(context.Context, []byte) ([]peer.AddrInfo, error)) bool {
 	s, self := w.s, w.h.U.Self.ID
+	if s.Failed() || ob == nil || ob.op == nil || !ob.op.Done {
+		return false
+	}
 	var provs []peer.AddrInfo
 	var gerr error
 	var ops opSet
@@ -1563,15 +1589,23 @@ func (w *c06World) checkLocalProvider(key mh.Multihash, get func(context.Context
 	})
 	s.Quiesce()
 	if !g.Done {
-		s.Violate("ap-local-provider", "GetProviders on the provider store blocked after Provide returned")
+		s.Violate(prefix+"-local-provider", "GetProviders on the provider store blocked after %s returned", ob.name)
 		return false
+	}
+	s.Count("probe_local_provider_judged")
+	if advertised == 0 {
+		s.Count("probe_local_provider_judged_no_addrs")
+	}
+	if ob.op.Err != nil {
+		s.Count("probe_local_provider_judged_op_failed")
 	}
 	for _, p := range provs {
 		if p.ID == self {
 			return true
 		}
 	}
-	s.Violate("ap-local-provider", "after Provide returned, the provider store does not list the local peer for the key (err=%v)", gerr)
+	s.Violate(prefix+"-local-provider", "%s with announce returned (err=%v; %d advertised addresses pass the filter; %d ADD_PROVIDER reached the sender) and the provider store does not list the local peer for the key (GetProviders: %d providers, err=%v): the local node was not recorded as provider",
+		ob.name, ob.op.Err, advertised, len(w.sent(ob, pb.Message_ADD_PROVIDER)), len(provs), gerr)
 	return false
 }
 
